@@ -1,6 +1,7 @@
 import RosuModel.Lemmas.SafetyQueue
 import RosuModel.Lemmas.SafetyColumns
 import RosuModel.Lemmas.SafetyLoops
+import RosuModel.Lemmas.SafetyStacking
 import RosuModel.Props.C15
 import RosuModel.Props.C16
 import RosuModel.Props.C19
@@ -313,6 +314,22 @@ theorem taiko_zero_spacing_would_spin (bound fuel : Nat) : progLoop 0 bound fuel
   progLoop_zero_step bound fuel 0 0 (Nat.zero_le _)
 
 example : taikoHits 125 1 500 10 = some 5 := by decide
+
+/-! ## osu! stacking (src/osu/convert.rs, `stacking`) -/
+
+/-- **No index of the stacking pass is ever out of bounds**, for every object count and whatever
+the float predicates (spinner? in range? positions close?) answer: `n` only moves down through
+`checked_sub`, `obj_i_idx ≤ i`, and the inner `for j in n+1..=i` stays below `len`. -/
+theorem osu_stacking_indices_in_bounds (O : StackOracles) (len : Nat) : (stacking O len).isSome = true :=
+  stacking_isSome O len
+
+/-- the loops really index: with an object list shorter than the indices used the model reports
+the out-of-bounds access (non-vacuity of the checked accesses) -/
+example : circleLoop ⟨fun _ => false, fun _ => false, fun _ => true, fun _ _ => false, fun _ _ => false,
+    fun _ _ => true, fun _ => false⟩ 2 5 5 5 = none := by decide
+
+example : stacking ⟨fun k => k == 2, fun k => k == 1, fun k => k != 1 && k != 2, fun a b => a > b + 2, fun _ _ => true,
+    fun _ _ => true, fun _ => false⟩ 6 = some () := by decide
 
 /-! ## strain section loop (src/util/macros.rs) and the non-suspicious filter -/
 
